@@ -694,3 +694,27 @@ pub fn jf(v: &Val) -> f64 {
         _ => v.as_f64().unwrap_or(f64::NAN),
     }
 }
+
+/// serde adapter for `Vec<f64>` that keeps NaN and infinities (as strings)
+pub mod nf {
+    use super::{fj, jf, Val};
+    use serde::{Deserialize, Deserializer, Serialize, Serializer};
+    pub fn serialize<S: Serializer>(v: &[f64], s: S) -> Result<S::Ok, S::Error> {
+        v.iter().map(|x| fj(*x)).collect::<Vec<Val>>().serialize(s)
+    }
+    pub fn deserialize<'de, D: Deserializer<'de>>(d: D) -> Result<Vec<f64>, D::Error> {
+        Ok(Vec::<Val>::deserialize(d)?.iter().map(jf).collect())
+    }
+}
+
+/// serde adapter for `Option<Vec<f64>>` that keeps NaN and infinities
+pub mod nf_opt {
+    use super::{fj, jf, Val};
+    use serde::{Deserialize, Deserializer, Serialize, Serializer};
+    pub fn serialize<S: Serializer>(v: &Option<Vec<f64>>, s: S) -> Result<S::Ok, S::Error> {
+        v.as_ref().map(|v| v.iter().map(|x| fj(*x)).collect::<Vec<Val>>()).serialize(s)
+    }
+    pub fn deserialize<'de, D: Deserializer<'de>>(d: D) -> Result<Option<Vec<f64>>, D::Error> {
+        Ok(Option::<Vec<Val>>::deserialize(d)?.map(|v| v.iter().map(jf).collect()))
+    }
+}
